@@ -37,7 +37,8 @@ mod listing {
     //!   `f:<name>:<body index>[:r]`  `'name'() body` [then `typeset -fr -- 'name'`]
     //!                                (`fq:` = name needs quoting, `fk:` = name is a keyword)
     //! Observation: the texts printed by `alias`, `typeset -p`, `export -p`, `readonly -p`, `set`, `trap`,
-    //! `alias -- names`, `typeset -p -- names`, `trap -p CONDS`, `set -o`, `umask -S`,
+    //! `alias -- names`, `typeset -p -- names`, `trap -p CONDS`, `set -o`, `umask -S`, and `trap`, `alias`,
+    //! `typeset -p`, `set +o` run in a subshell (`(…)`, `… | cat`, `$(…)`),
     //! `umask`, `set +o` and the attribute lines (`typeset -fr [-- ]name`) of `typeset -fp` (hex).  Oracle: every listing (also `typeset -fp [-- names]`, `trap -p`) evaluated in a fresh
     //! shell recreates what it lists (state snapshots compared), and every listed command line is made of
     //! literal-only words for the real lexer.
@@ -352,12 +353,19 @@ mod listing {
         ("Fr", "Fr", "typeset -fpr"),
         ("Tc", "T", "trap -p @c"),
         ("Tp", "T", "trap -p"),
+        // listings taken in a subshell: parentheses, a pipeline component, a command substitution
+        ("Ts", "T", "(trap)"),
+        ("Tk", "T", "trap | cat"),
+        ("As", "A", "(alias)"),
+        ("Vs", "V", "(typeset -p)"),
+        ("Tq", "T", "SAVEDQZJX=$(trap); echo \"$SAVEDQZJX\"; unset -v SAVEDQZJX"),
         // after `set -o portable` (if the history asks for it) and a second `snap`
         ("O", "O", "set +o"),
         ("Oh", "-", "set -o"),
+        ("Os", "O", "(set +o)"),
     ];
     /// observation order (texts the model predicts)
-    const OBS: &[&str] = &["A", "V", "X", "R", "S", "T", "U", "O", "Ao", "Vo", "Tc", "Oh", "Us"];
+    const OBS: &[&str] = &["A", "V", "X", "R", "S", "T", "U", "O", "Ao", "Vo", "Tc", "Oh", "Us", "Ts", "Tk", "Tq", "As", "Vs", "Os"];
 
     fn var_fields(l: &str) -> Option<(String, String, String)> {
         // "V <name> <xr> <value>"
@@ -469,7 +477,12 @@ mod listing {
             emit(case, "listing-sections-missing", "FAIL:listing-sections-missing");
             return;
         }
-        let texts: Vec<&str> = parts[1..=KINDS.len()].to_vec();
+        let mut texts: Vec<&str> = parts[1..=KINDS.len()].to_vec();
+        // `echo "$(trap)"`: the substitution drops the trailing newline and `echo` adds one; nothing listed = one empty line
+        let qi = KINDS.iter().position(|k| k.0 == "Tq").unwrap();
+        if texts[qi] == "\n" {
+            texts[qi] = "";
+        }
         let text_of = |key: &str| texts[KINDS.iter().position(|k| k.0 == key).unwrap()];
         let mut verdict: Option<String> = None;
         for (i, (key, k, _)) in KINDS.iter().enumerate() {
